@@ -17,6 +17,12 @@ L : probes / interpolator / point_source for scalar, vector and tensor valued el
     supplies a containing cell per point, TLC verifies it exactly), so the TLC cost does not grow with the mesh.
     Call histories with IN-PLACE modified arguments: the same point array object handed again to the same
     interpolator handle / probes / point_source after its contents were overwritten, permuted or incremented.
+    Points exactly on the domain boundary (all boundary facets / edges / vertices) of affine images of lattice meshes
+    under an integer matrix with odd determinant (no cell determinant is a power of two), every local vertex order.
+    Non-affine quadrilaterals / hexahedra (planar faces) and simplices at physical scales 2^g (g = -34 .. 12): the
+    quadrature points are images of known dyadic reference points, queried in one batch and ONE AT A TIME
+    (probes / interpolator / point_source); the reference expansion does not involve the inverse map.
+    COMPLEX and integer coefficient vectors: real and imaginary parts are validated as separate events.
 Python only drives the library and changes representation; every verdict is a clause name reported by TLC.
 """
 import json
